@@ -129,6 +129,21 @@ def oracle(orig_t, root, pruned, strict, store_before):
     w = sub(root, orig_t)
     if w:
         return w
+    # 2b. metadata content is opaque to pruning: nothing at or below the child of a `metadata` element THAT STAYS IN THE TREE is ever
+    # removed - also when the metadata element is the node prune() was called on (a metadata element that is itself removed,
+    # because it is misplaced or - strict mode - over-full, takes its content with it)
+    def below_md(x, inside):
+        here = inside or (x[1] == "metadata" and x[0] in kept)
+        for k in x[8]:
+            if here and k[0] not in kept:
+                return k
+            r_ = below_md(k, here)
+            if r_ is not None:
+                return r_
+        return None
+    lost_md = below_md(orig_t, False)
+    if lost_md is not None:
+        return f"'{lost_md[1]}', part of the content of a metadata element, was removed by pruning"
     # 3. the returned list names precisely the removed subtree roots
     removed_roots = set()
     def rr(org, keptparent):
